@@ -1,8 +1,9 @@
-// group `staking_math`: reward arithmetic of src/staking.rs   (C15)
+// group `staking_core`: src/staking.rs StakeKeeper acting on its own window (C14, C15, C16)
+#![feature(allocator_api)]
 //@ include prelude/macros.rs
 use vstd::prelude::*;
 use vstd::std_specs::iter::IteratorSpec;
-use std::collections::BTreeSet;
+use std::collections::{BTreeSet, VecDeque};
 verus! {
 //@ rewrite R2 "dyn CosmosRouter<ExecC = ExecC, QueryC = QueryC>" => "dyn CosmosRouter<ExecC, QueryC>"
 //@ include prelude/base.rs
@@ -10,8 +11,12 @@ verus! {
 //@ include spec/lp.rs
 //@ include prelude/std_ext.rs
 //@ include prelude/cosmwasm.rs
+//@ include prelude/cw_plus.rs
+//@ include prelude/cw_plus_ext.rs
 //@ include prelude/staking_prelude.rs
+//@ include contracts/staking_types.rs
 //@ include spec/staking_math.rs
-//@ include contracts/staking_math.rs
+//@ include spec/staking_sem.rs
+//@ include contracts/staking_core.rs
 } // verus!
 fn main() {}
